@@ -72,6 +72,15 @@ def cli_cases():
     rdes = lambda code: [(["#" + x], [x], code, -1.0, -1.0) for x in rneutral]
     cases.append(("reduce+depletion", ["--reduce-by-species", "H,H2, C ,CH", "--append-depletion"], (red, rfreeze)))
     cases.append(("reduce+depletion+thermal", ["--reduce-by-species", "H,H2, C ,CH", "--append-depletion", "--append-thermal-desorption"], (red, rfreeze + rdes(201))))
+    # removal by species combined with removal of duplicates in one invocation (reactions in front of the repeated
+    # entries disappear first: positions found before an edit do not survive it)
+    for nm, rm in (("C", {"C"}), ("H2, e-", {"H2", "e-"}), ("CO,CH", {"CO", "CH"})):
+        exp = []
+        for i in base:
+            if not (rm & spec(i)) and key(i) not in exp:
+                exp.append(key(i))
+        cases.append((f"remove-species[{nm}]+dedup", ["--remove-species", nm, "--remove-duplicate"], exp))
+        cases.append((f"dedup+remove-species[{nm}]", ["--remove-duplicate", "--remove-species", nm], exp))
     return cases
 
 
